@@ -100,6 +100,9 @@ def check_c02(rep):
     eb = [(f"exp-{p}-{s}", p, *G.expiry_boundary(s, p)) for i, s in enumerate(seeds(300 if q else 4000, 2))
           for p in (("at4",) if i % 2 == 0 else ("at5",))]
     run_generated(rep, "faults and connections at lifetime -125/0/+125 ms", eb)
+    sd = [(f"stall-{p}-{s}", p, *G.stalled_drain(s, p)) for i, s in enumerate(seeds(300 if q else 4000, 22))
+          for p in (("at4",) if i % 2 == 0 else ("at5",))]
+    run_generated(rep, "held messages drained into a connection that stalls while lifetimes run out", sd)
 
 
 def check_c07(rep):
@@ -136,6 +139,9 @@ def check_c16(rep):
     qf = [(f"qf-{p}-{s}", p, *G.queue_fill(s, p)) for i, s in enumerate(seeds(400 if q else 6000, 4))
           for p in (("at4",) if i % 2 == 0 else ("at5",))]
     run_generated(rep, "up to 14 sends while down with expiries, then a connection", qf)
+    sd = [(f"stall-{p}-{s}", p, *G.stalled_drain(s, p)) for i, s in enumerate(seeds(400 if q else 6000, 26))
+          for p in (("at4",) if i % 2 == 0 else ("at5",))]
+    run_generated(rep, "held messages drained into a connection that stalls while lifetimes run out", sd)
 
 
 def check_c13(rep):
